@@ -154,6 +154,41 @@ func (ex *Exec) VerifyFunc(ct *Contract) (res *FuncResult) {
 			outer[pp.Name()] = c
 		}
 	}
+	// ... and likewise the named locals of the enclosing functions that the closure does not (or no longer) capture:
+	// arbitrary values of their type (found through the debug references of go/ssa)
+	for p := fn.Parent(); p != nil; p = p.Parent() {
+		for _, blk := range p.Blocks {
+			for _, ins := range blk.Instrs {
+				var name string
+				var typ types.Type
+				switch d := ins.(type) {
+				case *ssa.DebugRef:
+					if id, ok := d.Expr.(*ast.Ident); ok && !d.IsAddr {
+						name, typ = id.Name, d.X.Type()
+					}
+				case *ssa.Alloc:
+					if d.Comment != "" {
+						name, typ = d.Comment, d.Type().(*types.Pointer).Elem()
+					}
+				}
+				if name == "" || name == "_" || typ == nil {
+					continue
+				}
+				if _, ok := vars[name]; ok {
+					continue
+				}
+				if _, isSig := typ.Underlying().(*types.Signature); isSig {
+					continue
+				}
+				func() {
+					defer func() { recover() }()
+					c := st.FreshOf("outer_"+name, typ)
+					vars[name] = c
+					outer[name] = c
+				}()
+			}
+		}
+	}
 	// requires
 	envR := &SpecEnv{ex: ex, vars: vars, cur: st, pkg: ct.Pkg, bound: map[string]T{}}
 	for _, rq := range ct.Requires {
